@@ -412,10 +412,37 @@ func runFree(res *caseResult, idx int, dir, tier string, rnd *rand.Rand) {
 	for i := 0; i < 6; i++ {
 		warm = append(warm, noisePoint(i))
 	}
-	if err := r.write(warm); err != nil {
+	if _, err := r.n.Write(warm); err != nil {
 		res.Notes = append(res.Notes, "write failed: "+err.Error())
 		return
 	}
+	// every metric, series and field the queried workload will use is created and its metadata flushed before
+	// anything runs concurrently: creating names while the metadata stores are being flushed is the subject of C09
+	// (and races outside C11's mechanisms on the unchanged tree)
+	var first []node.Point
+	for mi := range sc.Metrics {
+		ms := &sc.Metrics[mi]
+		for si, tags := range ms.Series {
+			p := node.Point{Metric: ms.Name, Tags: tags, Timestamp: sc.Base + int64(3+si)*slotMs + 500}
+			for _, f := range ms.Fields {
+				p.Fields = append(p.Fields, node.Field{Name: f.Name, Type: f.Type, Value: 1})
+			}
+			if len(ms.Bounds) > 0 {
+				p.Histogram = wg.histogram(ms)
+			}
+			first = append(first, p)
+			wg.cursor[p.SeriesKey()] = 3 + si
+		}
+	}
+	if err := r.write(first); err != nil {
+		res.Notes = append(res.Notes, "write failed: "+err.Error())
+		return
+	}
+	if err := r.n.FlushAll(); err != nil {
+		res.Notes = append(res.Notes, "flush failed: "+err.Error())
+		return
+	}
+	r.track.flush(-1, -1)
 	stop := make(chan struct{})
 	var bg sync.WaitGroup
 	bg.Add(2)
